@@ -138,6 +138,12 @@ def check_frame_table(run, cx, cfg):
         run.check(bad is None, 'frame.table', key, cfg, bad or '', where=imp['span'])
 
 
+_FM = ('channels', 'channel', 'channel_unchecked', 'from_fn', 'from_samples', 'map', 'zip_map', 'to_signed_frame', 'to_float_frame', 'offset_amp', 'scale_amp',
+       'add_amp', 'mul_amp', 'channels_ref', 'channels_mut', 'channel_mut')
+_SM = ('to_sample', 'from_sample', 'to_signed_sample', 'to_float_sample', 'add_amp', 'mul_amp')
+FRAME_SAMPLE_METHODS = [('dasp_frame::Frame', m) for m in _FM] + [('dasp_sample::Sample', m) for m in _SM]
+
+
 def check_map_zip(run, cx, cfg):
     """map / zip_map bodies: from_fn(closure), closure applies the user fn once to channel idx of each operand"""
     n = 0
@@ -151,6 +157,12 @@ def check_map_zip(run, cx, cfg):
                 continue
             n += 1
             ps = returning(cx.paths(fn, inline=False))
+            inl = False
+            if len(ps) == 1 and not (ps[0]['ret'][0] == 'app' and ps[0]['ret'][1] == 'dasp_frame::Frame::from_fn'):
+                # the body may live in a private helper shared by several impls: see through free functions, keep every
+                # Frame / Sample method as the call it is
+                ps = returning(cx.paths(fn, stop_trait_methods=FRAME_SAMPLE_METHODS))
+                inl = True
             bad = None
             if len(ps) != 1 or not (ps[0]['ret'][0] == 'app' and ps[0]['ret'][1] == 'dasp_frame::Frame::from_fn'):
                 bad = 'must be F::from_fn(closure)'
@@ -158,7 +170,7 @@ def check_map_zip(run, cx, cfg):
                 p = ps[0]
                 clo = p['ret'][2][0]
                 idx = ('idx',)
-                cps = returning(cx.closure_paths(clo, p, [idx], inline=False)) if clo[0] == 'agg' else []
+                cps = returning(cx.closure_paths(clo, p, [idx], inline=inl, stop_trait_methods=FRAME_SAMPLE_METHODS if inl else ())) if clo[0] == 'agg' else []
                 if len(cps) != 1:
                     bad = 'closure is not straight-line'
                 else:
